@@ -15,6 +15,8 @@ import Spec.Conforms
 import Spec.Choose
 import Spec.Pcf
 import Spec.Resolve
+import Spec.JsonEnc
+import Model.Json
 
 open Lean Wire
 
@@ -172,6 +174,28 @@ def handle (j : Json) : String :=
       match Spec.encode (fun f bs v => Spec.choose f env o.strict o.disableTuple bs v) FUEL env s (getV j "value") with
       | none => "{\"none\":true}"
       | some b => "{\"bytes\":\"" ++ hex b ++ "\"}"
+  | "json.enc" =>
+    match parseReq j with
+    | .error e => "{\"perr\":\"" ++ e.name ++ "\"}"
+    | .ok (s, env) =>
+      match Json.encode (!(getB j "nowut")) FUEL env (wopts j) s (getV j "value") with
+      | .error e => errOut e
+      | .ok v => "{\"ok\":" ++ ofVal v ++ "}"
+  | "json.dec" =>
+    match parseReq j with
+    | .error e => "{\"perr\":\"" ++ e.name ++ "\"}"
+    | .ok (s, env) =>
+      match Json.decode FUEL env s (getV j "json") with
+      | .error e => errOut e
+      | .ok v => "{\"ok\":" ++ ofVal v ++ "}"
+  | "spec.json" =>
+    match parseReq j with
+    | .error e => "{\"perr\":\"" ++ e.name ++ "\"}"
+    | .ok (s, env) =>
+      let o := wopts j
+      match Spec.jsonEncode (fun f bs v => Spec.choose f env o.strict o.disableTuple bs v) FUEL env s (getV j "value") with
+      | none => "{\"none\":true}"
+      | some v => "{\"ok\":" ++ ofVal v ++ "}"
   | "spec.choose" =>
     match parseReq j with
     | .error e => "{\"perr\":\"" ++ e.name ++ "\"}"
